@@ -333,9 +333,9 @@ func (m *Muxer) assembleSimple(w io.Writer) error {
 	buf := make([]byte, container.RIFFHeaderSize+container.ChunkHeaderSize)
 
 	// RIFF header.
-	binary.LittleEndian.PutUint32(buf[0:4], FourCCRIFF)
+	binary.LittleEndian.PutUint32(buf[0:4], container.FourCCRIFF)
 	binary.LittleEndian.PutUint32(buf[4:8], uint32(riffPayload))
-	binary.LittleEndian.PutUint32(buf[8:12], FourCCWEBP)
+	binary.LittleEndian.PutUint32(buf[8:12], container.FourCCWEBP)
 
 	// Chunk header.
 	writeChunkHeader(buf[12:20], chunkID, chunkSize)
@@ -429,9 +429,9 @@ func (m *Muxer) assembleExtended(w io.Writer) error {
 
 	// Write RIFF header.
 	header := make([]byte, container.RIFFHeaderSize)
-	binary.LittleEndian.PutUint32(header[0:4], FourCCRIFF)
+	binary.LittleEndian.PutUint32(header[0:4], container.FourCCRIFF)
 	binary.LittleEndian.PutUint32(header[4:8], riffPayload)
-	binary.LittleEndian.PutUint32(header[8:12], FourCCWEBP)
+	binary.LittleEndian.PutUint32(header[8:12], container.FourCCWEBP)
 	if _, err := w.Write(header); err != nil {
 		return err
 	}
